@@ -1035,6 +1035,18 @@ func (h *NtfnsHandler) asyncImport(walletId string) (finish bool, err error) {
 func (h *NtfnsHandler) asyncRemove(walletId string) error {
 	am, err := h.walletMgr.ksmgr.GetAddrManagerByAccountID(walletId)
 	if err != nil {
+		// The last round may have failed after it dropped the keystore from
+		// memory, and reloading it may have failed as well: load it again
+		// instead of giving the removal up for good.
+		if verr := mwdb.View(h.walletMgr.db, func(rtx mwdb.ReadTransaction) error {
+			h.walletMgr.ksmgr.UpdateManagedKeystores(rtx, walletId)
+			return nil
+		}); verr != nil {
+			return verr
+		}
+		am, err = h.walletMgr.ksmgr.GetAddrManagerByAccountID(walletId)
+	}
+	if err != nil {
 		logging.CPrint(logging.ERROR, "unexpected error", logging.LogFormat{"err": err, "walletId": walletId})
 		return nil
 	}
